@@ -321,11 +321,12 @@ impl Database {
             // Run recovery through recuperator
             recuperator.run_recovery(&analysis).map_err(box_err)?;
 
-            // Truncate WAL
-            pager.write().truncate_wal().map_err(box_err)?;
-
             // Commit recovery transaction
             tx_ctx.commit_transaction().map_err(box_err)?;
+
+            // Checkpoint: the log may only be discarded once the recovered pages
+            // and the header are in the data file.
+            pager.write().flush().map_err(box_err)?;
 
             Ok(())
         })?;
